@@ -2228,461 +2228,212 @@ let rec idle_dequeue c q s evs allowed =
           | SRCrash site -> SRCrash site
           | SRDone (s', evs', out) -> SRDone (s', (app evs evs'), out))
 
-(** val handle_fc :
-    cfg -> layer -> fcpdu -> (layer * event list) option * (layer * event
-    list) **)
+(** val handle_fc_active : cfg -> layer -> fcpdu -> layer * event list **)
+
+let handle_fc_active c s fc =
+  let p = c.c_p in
+  if Z.eqb fc.fc_status coq_FS_WAIT
+  then if Z.eqb p.p_wftmax Z0
+       then (s, ((EErr UnsupportedWaitFrame) :: []))
+       else if timer_timed_out s.now s.timer_rx_fc
+            then (s, [])
+            else if Z.leb p.p_wftmax s.wft_counter
+                 then let (s1, evs) = stop_sending false s in
+                      (s1, ((EErr MaximumWaitFrameReached) :: evs))
+                 else ((start_rx_fc_timer c
+                         (set (fun l -> l.tx_state) (fun f ->
+                           let t = fun r -> f r.tx_state in
+                           (fun x -> { now = x.now; rx_state = x.rx_state;
+                           rx_buffer = x.rx_buffer; rx_frame_length =
+                           x.rx_frame_length; last_seqnum = x.last_seqnum;
+                           rx_block_counter = x.rx_block_counter;
+                           actual_rxdl = x.actual_rxdl; pending_fc =
+                           x.pending_fc; pending_fc_status =
+                           x.pending_fc_status; timer_rx_cf = x.timer_rx_cf;
+                           rx_queue = x.rx_queue; tx_state = (t x);
+                           tx_queue = x.tx_queue; active = x.active;
+                           tx_standby = x.tx_standby; last_fc = x.last_fc;
+                           remote_bs = x.remote_bs; tx_block_counter =
+                           x.tx_block_counter; tx_seqnum = x.tx_seqnum;
+                           wft_counter = x.wft_counter; tx_frame_length =
+                           x.tx_frame_length; timer_rx_fc = x.timer_rx_fc;
+                           timer_tx_stmin = x.timer_tx_stmin; lim_times =
+                           x.lim_times; lim_bits = x.lim_bits; lim_total =
+                           x.lim_total; next_req_id = x.next_req_id }))
+                           (fun _ -> TxWaitFC)
+                           (set (fun l -> l.wft_counter) (fun f ->
+                             let z = fun r -> f r.wft_counter in
+                             (fun x -> { now = x.now; rx_state = x.rx_state;
+                             rx_buffer = x.rx_buffer; rx_frame_length =
+                             x.rx_frame_length; last_seqnum = x.last_seqnum;
+                             rx_block_counter = x.rx_block_counter;
+                             actual_rxdl = x.actual_rxdl; pending_fc =
+                             x.pending_fc; pending_fc_status =
+                             x.pending_fc_status; timer_rx_cf =
+                             x.timer_rx_cf; rx_queue = x.rx_queue; tx_state =
+                             x.tx_state; tx_queue = x.tx_queue; active =
+                             x.active; tx_standby = x.tx_standby; last_fc =
+                             x.last_fc; remote_bs = x.remote_bs;
+                             tx_block_counter = x.tx_block_counter;
+                             tx_seqnum = x.tx_seqnum; wft_counter = (z x);
+                             tx_frame_length = x.tx_frame_length;
+                             timer_rx_fc = x.timer_rx_fc; timer_tx_stmin =
+                             x.timer_tx_stmin; lim_times = x.lim_times;
+                             lim_bits = x.lim_bits; lim_total = x.lim_total;
+                             next_req_id = x.next_req_id })) (fun _ ->
+                             Z.add s.wft_counter (Zpos Coq_xH)) s))), [])
+  else if (&&) (Z.eqb fc.fc_status coq_FS_CTS)
+            (negb (timer_timed_out s.now s.timer_rx_fc))
+       then let st =
+              match p.p_override_stmin_ns with
+              | Some o -> o
+              | None -> stmin_ns fc.fc_stmin
+            in
+            let s1 =
+              set (fun l -> l.remote_bs) (fun f ->
+                let o = fun r -> f r.remote_bs in
+                (fun x -> { now = x.now; rx_state = x.rx_state; rx_buffer =
+                x.rx_buffer; rx_frame_length = x.rx_frame_length;
+                last_seqnum = x.last_seqnum; rx_block_counter =
+                x.rx_block_counter; actual_rxdl = x.actual_rxdl; pending_fc =
+                x.pending_fc; pending_fc_status = x.pending_fc_status;
+                timer_rx_cf = x.timer_rx_cf; rx_queue = x.rx_queue;
+                tx_state = x.tx_state; tx_queue = x.tx_queue; active =
+                x.active; tx_standby = x.tx_standby; last_fc = x.last_fc;
+                remote_bs = (o x); tx_block_counter = x.tx_block_counter;
+                tx_seqnum = x.tx_seqnum; wft_counter = x.wft_counter;
+                tx_frame_length = x.tx_frame_length; timer_rx_fc =
+                x.timer_rx_fc; timer_tx_stmin = x.timer_tx_stmin; lim_times =
+                x.lim_times; lim_bits = x.lim_bits; lim_total = x.lim_total;
+                next_req_id = x.next_req_id })) (fun _ -> Some fc.fc_bs)
+                (set (fun l -> l.timer_tx_stmin) (fun f ->
+                  let t = fun r -> f r.timer_tx_stmin in
+                  (fun x -> { now = x.now; rx_state = x.rx_state; rx_buffer =
+                  x.rx_buffer; rx_frame_length = x.rx_frame_length;
+                  last_seqnum = x.last_seqnum; rx_block_counter =
+                  x.rx_block_counter; actual_rxdl = x.actual_rxdl;
+                  pending_fc = x.pending_fc; pending_fc_status =
+                  x.pending_fc_status; timer_rx_cf = x.timer_rx_cf;
+                  rx_queue = x.rx_queue; tx_state = x.tx_state; tx_queue =
+                  x.tx_queue; active = x.active; tx_standby = x.tx_standby;
+                  last_fc = x.last_fc; remote_bs = x.remote_bs;
+                  tx_block_counter = x.tx_block_counter; tx_seqnum =
+                  x.tx_seqnum; wft_counter = x.wft_counter; tx_frame_length =
+                  x.tx_frame_length; timer_rx_fc = x.timer_rx_fc;
+                  timer_tx_stmin = (t x); lim_times = x.lim_times; lim_bits =
+                  x.lim_bits; lim_total = x.lim_total; next_req_id =
+                  x.next_req_id })) (fun t ->
+                  set (fun t0 -> t0.t_timeout) (fun f ->
+                    let z = fun r -> f r.t_timeout in
+                    (fun x -> { t_start = x.t_start; t_timeout = (z x) }))
+                    (fun _ -> st) t)
+                  (set (fun l -> l.timer_rx_fc) (fun f ->
+                    let t = fun r -> f r.timer_rx_fc in
+                    (fun x -> { now = x.now; rx_state = x.rx_state;
+                    rx_buffer = x.rx_buffer; rx_frame_length =
+                    x.rx_frame_length; last_seqnum = x.last_seqnum;
+                    rx_block_counter = x.rx_block_counter; actual_rxdl =
+                    x.actual_rxdl; pending_fc = x.pending_fc;
+                    pending_fc_status = x.pending_fc_status; timer_rx_cf =
+                    x.timer_rx_cf; rx_queue = x.rx_queue; tx_state =
+                    x.tx_state; tx_queue = x.tx_queue; active = x.active;
+                    tx_standby = x.tx_standby; last_fc = x.last_fc;
+                    remote_bs = x.remote_bs; tx_block_counter =
+                    x.tx_block_counter; tx_seqnum = x.tx_seqnum;
+                    wft_counter = x.wft_counter; tx_frame_length =
+                    x.tx_frame_length; timer_rx_fc = (t x); timer_tx_stmin =
+                    x.timer_tx_stmin; lim_times = x.lim_times; lim_bits =
+                    x.lim_bits; lim_total = x.lim_total; next_req_id =
+                    x.next_req_id })) timer_stop
+                    (set (fun l -> l.wft_counter) (fun f ->
+                      let z = fun r -> f r.wft_counter in
+                      (fun x -> { now = x.now; rx_state = x.rx_state;
+                      rx_buffer = x.rx_buffer; rx_frame_length =
+                      x.rx_frame_length; last_seqnum = x.last_seqnum;
+                      rx_block_counter = x.rx_block_counter; actual_rxdl =
+                      x.actual_rxdl; pending_fc = x.pending_fc;
+                      pending_fc_status = x.pending_fc_status; timer_rx_cf =
+                      x.timer_rx_cf; rx_queue = x.rx_queue; tx_state =
+                      x.tx_state; tx_queue = x.tx_queue; active = x.active;
+                      tx_standby = x.tx_standby; last_fc = x.last_fc;
+                      remote_bs = x.remote_bs; tx_block_counter =
+                      x.tx_block_counter; tx_seqnum = x.tx_seqnum;
+                      wft_counter = (z x); tx_frame_length =
+                      x.tx_frame_length; timer_rx_fc = x.timer_rx_fc;
+                      timer_tx_stmin = x.timer_tx_stmin; lim_times =
+                      x.lim_times; lim_bits = x.lim_bits; lim_total =
+                      x.lim_total; next_req_id = x.next_req_id })) (fun _ ->
+                      Z0) s)))
+            in
+            let s2 =
+              match s1.tx_state with
+              | TxWaitFC ->
+                set (fun l -> l.timer_tx_stmin) (fun f ->
+                  let t = fun r -> f r.timer_tx_stmin in
+                  (fun x -> { now = x.now; rx_state = x.rx_state; rx_buffer =
+                  x.rx_buffer; rx_frame_length = x.rx_frame_length;
+                  last_seqnum = x.last_seqnum; rx_block_counter =
+                  x.rx_block_counter; actual_rxdl = x.actual_rxdl;
+                  pending_fc = x.pending_fc; pending_fc_status =
+                  x.pending_fc_status; timer_rx_cf = x.timer_rx_cf;
+                  rx_queue = x.rx_queue; tx_state = x.tx_state; tx_queue =
+                  x.tx_queue; active = x.active; tx_standby = x.tx_standby;
+                  last_fc = x.last_fc; remote_bs = x.remote_bs;
+                  tx_block_counter = x.tx_block_counter; tx_seqnum =
+                  x.tx_seqnum; wft_counter = x.wft_counter; tx_frame_length =
+                  x.tx_frame_length; timer_rx_fc = x.timer_rx_fc;
+                  timer_tx_stmin = (t x); lim_times = x.lim_times; lim_bits =
+                  x.lim_bits; lim_total = x.lim_total; next_req_id =
+                  x.next_req_id })) (timer_start s1.now)
+                  (set (fun l -> l.tx_block_counter) (fun f ->
+                    let z = fun r -> f r.tx_block_counter in
+                    (fun x -> { now = x.now; rx_state = x.rx_state;
+                    rx_buffer = x.rx_buffer; rx_frame_length =
+                    x.rx_frame_length; last_seqnum = x.last_seqnum;
+                    rx_block_counter = x.rx_block_counter; actual_rxdl =
+                    x.actual_rxdl; pending_fc = x.pending_fc;
+                    pending_fc_status = x.pending_fc_status; timer_rx_cf =
+                    x.timer_rx_cf; rx_queue = x.rx_queue; tx_state =
+                    x.tx_state; tx_queue = x.tx_queue; active = x.active;
+                    tx_standby = x.tx_standby; last_fc = x.last_fc;
+                    remote_bs = x.remote_bs; tx_block_counter = (z x);
+                    tx_seqnum = x.tx_seqnum; wft_counter = x.wft_counter;
+                    tx_frame_length = x.tx_frame_length; timer_rx_fc =
+                    x.timer_rx_fc; timer_tx_stmin = x.timer_tx_stmin;
+                    lim_times = x.lim_times; lim_bits = x.lim_bits;
+                    lim_total = x.lim_total; next_req_id = x.next_req_id }))
+                    (fun _ -> Z0) s1)
+              | _ -> s1
+            in
+            ((set (fun l -> l.tx_state) (fun f ->
+               let t = fun r -> f r.tx_state in
+               (fun x -> { now = x.now; rx_state = x.rx_state; rx_buffer =
+               x.rx_buffer; rx_frame_length = x.rx_frame_length;
+               last_seqnum = x.last_seqnum; rx_block_counter =
+               x.rx_block_counter; actual_rxdl = x.actual_rxdl; pending_fc =
+               x.pending_fc; pending_fc_status = x.pending_fc_status;
+               timer_rx_cf = x.timer_rx_cf; rx_queue = x.rx_queue; tx_state =
+               (t x); tx_queue = x.tx_queue; active = x.active; tx_standby =
+               x.tx_standby; last_fc = x.last_fc; remote_bs = x.remote_bs;
+               tx_block_counter = x.tx_block_counter; tx_seqnum =
+               x.tx_seqnum; wft_counter = x.wft_counter; tx_frame_length =
+               x.tx_frame_length; timer_rx_fc = x.timer_rx_fc;
+               timer_tx_stmin = x.timer_tx_stmin; lim_times = x.lim_times;
+               lim_bits = x.lim_bits; lim_total = x.lim_total; next_req_id =
+               x.next_req_id })) (fun _ -> TxTransmitCF) s2), [])
+       else (s, [])
+
+(** val handle_fc : cfg -> layer -> fcpdu -> bool * (layer * event list) **)
 
 let handle_fc c s fc =
-  let p = c.c_p in
   if Z.eqb fc.fc_status coq_FS_OVFLW
   then let (s1, evs) = stop_sending false s in
-       (None, (s1, (app evs ((EErr OverflowErr) :: []))))
-  else let r =
-         match s.tx_state with
-         | TxIdle -> (s, ((EErr UnexpectedFlowControl) :: []))
-         | TxWaitFC ->
-           if Z.eqb fc.fc_status coq_FS_WAIT
-           then if Z.eqb p.p_wftmax Z0
-                then (s, ((EErr UnsupportedWaitFrame) :: []))
-                else if timer_timed_out s.now s.timer_rx_fc
-                     then (s, [])
-                     else if Z.leb p.p_wftmax s.wft_counter
-                          then let (s1, evs) = stop_sending false s in
-                               (s1, ((EErr MaximumWaitFrameReached) :: evs))
-                          else ((start_rx_fc_timer c
-                                  (set (fun l -> l.tx_state) (fun f ->
-                                    let t = fun r -> f r.tx_state in
-                                    (fun x -> { now = x.now; rx_state =
-                                    x.rx_state; rx_buffer = x.rx_buffer;
-                                    rx_frame_length = x.rx_frame_length;
-                                    last_seqnum = x.last_seqnum;
-                                    rx_block_counter = x.rx_block_counter;
-                                    actual_rxdl = x.actual_rxdl; pending_fc =
-                                    x.pending_fc; pending_fc_status =
-                                    x.pending_fc_status; timer_rx_cf =
-                                    x.timer_rx_cf; rx_queue = x.rx_queue;
-                                    tx_state = (t x); tx_queue = x.tx_queue;
-                                    active = x.active; tx_standby =
-                                    x.tx_standby; last_fc = x.last_fc;
-                                    remote_bs = x.remote_bs;
-                                    tx_block_counter = x.tx_block_counter;
-                                    tx_seqnum = x.tx_seqnum; wft_counter =
-                                    x.wft_counter; tx_frame_length =
-                                    x.tx_frame_length; timer_rx_fc =
-                                    x.timer_rx_fc; timer_tx_stmin =
-                                    x.timer_tx_stmin; lim_times =
-                                    x.lim_times; lim_bits = x.lim_bits;
-                                    lim_total = x.lim_total; next_req_id =
-                                    x.next_req_id })) (fun _ -> TxWaitFC)
-                                    (set (fun l -> l.wft_counter) (fun f ->
-                                      let z = fun r -> f r.wft_counter in
-                                      (fun x -> { now = x.now; rx_state =
-                                      x.rx_state; rx_buffer = x.rx_buffer;
-                                      rx_frame_length = x.rx_frame_length;
-                                      last_seqnum = x.last_seqnum;
-                                      rx_block_counter = x.rx_block_counter;
-                                      actual_rxdl = x.actual_rxdl;
-                                      pending_fc = x.pending_fc;
-                                      pending_fc_status =
-                                      x.pending_fc_status; timer_rx_cf =
-                                      x.timer_rx_cf; rx_queue = x.rx_queue;
-                                      tx_state = x.tx_state; tx_queue =
-                                      x.tx_queue; active = x.active;
-                                      tx_standby = x.tx_standby; last_fc =
-                                      x.last_fc; remote_bs = x.remote_bs;
-                                      tx_block_counter = x.tx_block_counter;
-                                      tx_seqnum = x.tx_seqnum; wft_counter =
-                                      (z x); tx_frame_length =
-                                      x.tx_frame_length; timer_rx_fc =
-                                      x.timer_rx_fc; timer_tx_stmin =
-                                      x.timer_tx_stmin; lim_times =
-                                      x.lim_times; lim_bits = x.lim_bits;
-                                      lim_total = x.lim_total; next_req_id =
-                                      x.next_req_id })) (fun _ ->
-                                      Z.add s.wft_counter (Zpos Coq_xH)) s))),
-                                 [])
-           else if (&&) (Z.eqb fc.fc_status coq_FS_CTS)
-                     (negb (timer_timed_out s.now s.timer_rx_fc))
-                then let st =
-                       match p.p_override_stmin_ns with
-                       | Some o -> o
-                       | None -> stmin_ns fc.fc_stmin
-                     in
-                     let s1 =
-                       set (fun l -> l.remote_bs) (fun f ->
-                         let o = fun r -> f r.remote_bs in
-                         (fun x -> { now = x.now; rx_state = x.rx_state;
-                         rx_buffer = x.rx_buffer; rx_frame_length =
-                         x.rx_frame_length; last_seqnum = x.last_seqnum;
-                         rx_block_counter = x.rx_block_counter; actual_rxdl =
-                         x.actual_rxdl; pending_fc = x.pending_fc;
-                         pending_fc_status = x.pending_fc_status;
-                         timer_rx_cf = x.timer_rx_cf; rx_queue = x.rx_queue;
-                         tx_state = x.tx_state; tx_queue = x.tx_queue;
-                         active = x.active; tx_standby = x.tx_standby;
-                         last_fc = x.last_fc; remote_bs = (o x);
-                         tx_block_counter = x.tx_block_counter; tx_seqnum =
-                         x.tx_seqnum; wft_counter = x.wft_counter;
-                         tx_frame_length = x.tx_frame_length; timer_rx_fc =
-                         x.timer_rx_fc; timer_tx_stmin = x.timer_tx_stmin;
-                         lim_times = x.lim_times; lim_bits = x.lim_bits;
-                         lim_total = x.lim_total; next_req_id =
-                         x.next_req_id })) (fun _ -> Some fc.fc_bs)
-                         (set (fun l -> l.timer_tx_stmin) (fun f ->
-                           let t = fun r -> f r.timer_tx_stmin in
-                           (fun x -> { now = x.now; rx_state = x.rx_state;
-                           rx_buffer = x.rx_buffer; rx_frame_length =
-                           x.rx_frame_length; last_seqnum = x.last_seqnum;
-                           rx_block_counter = x.rx_block_counter;
-                           actual_rxdl = x.actual_rxdl; pending_fc =
-                           x.pending_fc; pending_fc_status =
-                           x.pending_fc_status; timer_rx_cf = x.timer_rx_cf;
-                           rx_queue = x.rx_queue; tx_state = x.tx_state;
-                           tx_queue = x.tx_queue; active = x.active;
-                           tx_standby = x.tx_standby; last_fc = x.last_fc;
-                           remote_bs = x.remote_bs; tx_block_counter =
-                           x.tx_block_counter; tx_seqnum = x.tx_seqnum;
-                           wft_counter = x.wft_counter; tx_frame_length =
-                           x.tx_frame_length; timer_rx_fc = x.timer_rx_fc;
-                           timer_tx_stmin = (t x); lim_times = x.lim_times;
-                           lim_bits = x.lim_bits; lim_total = x.lim_total;
-                           next_req_id = x.next_req_id })) (fun t ->
-                           set (fun t0 -> t0.t_timeout) (fun f ->
-                             let z = fun r -> f r.t_timeout in
-                             (fun x -> { t_start = x.t_start; t_timeout =
-                             (z x) })) (fun _ -> st) t)
-                           (set (fun l -> l.timer_rx_fc) (fun f ->
-                             let t = fun r -> f r.timer_rx_fc in
-                             (fun x -> { now = x.now; rx_state = x.rx_state;
-                             rx_buffer = x.rx_buffer; rx_frame_length =
-                             x.rx_frame_length; last_seqnum = x.last_seqnum;
-                             rx_block_counter = x.rx_block_counter;
-                             actual_rxdl = x.actual_rxdl; pending_fc =
-                             x.pending_fc; pending_fc_status =
-                             x.pending_fc_status; timer_rx_cf =
-                             x.timer_rx_cf; rx_queue = x.rx_queue; tx_state =
-                             x.tx_state; tx_queue = x.tx_queue; active =
-                             x.active; tx_standby = x.tx_standby; last_fc =
-                             x.last_fc; remote_bs = x.remote_bs;
-                             tx_block_counter = x.tx_block_counter;
-                             tx_seqnum = x.tx_seqnum; wft_counter =
-                             x.wft_counter; tx_frame_length =
-                             x.tx_frame_length; timer_rx_fc = (t x);
-                             timer_tx_stmin = x.timer_tx_stmin; lim_times =
-                             x.lim_times; lim_bits = x.lim_bits; lim_total =
-                             x.lim_total; next_req_id = x.next_req_id }))
-                             timer_stop
-                             (set (fun l -> l.wft_counter) (fun f ->
-                               let z = fun r -> f r.wft_counter in
-                               (fun x -> { now = x.now; rx_state =
-                               x.rx_state; rx_buffer = x.rx_buffer;
-                               rx_frame_length = x.rx_frame_length;
-                               last_seqnum = x.last_seqnum;
-                               rx_block_counter = x.rx_block_counter;
-                               actual_rxdl = x.actual_rxdl; pending_fc =
-                               x.pending_fc; pending_fc_status =
-                               x.pending_fc_status; timer_rx_cf =
-                               x.timer_rx_cf; rx_queue = x.rx_queue;
-                               tx_state = x.tx_state; tx_queue = x.tx_queue;
-                               active = x.active; tx_standby = x.tx_standby;
-                               last_fc = x.last_fc; remote_bs = x.remote_bs;
-                               tx_block_counter = x.tx_block_counter;
-                               tx_seqnum = x.tx_seqnum; wft_counter = 
-                               (z x); tx_frame_length = x.tx_frame_length;
-                               timer_rx_fc = x.timer_rx_fc; timer_tx_stmin =
-                               x.timer_tx_stmin; lim_times = x.lim_times;
-                               lim_bits = x.lim_bits; lim_total =
-                               x.lim_total; next_req_id = x.next_req_id }))
-                               (fun _ -> Z0) s)))
-                     in
-                     let s2 =
-                       match s1.tx_state with
-                       | TxWaitFC ->
-                         set (fun l -> l.timer_tx_stmin) (fun f ->
-                           let t = fun r -> f r.timer_tx_stmin in
-                           (fun x -> { now = x.now; rx_state = x.rx_state;
-                           rx_buffer = x.rx_buffer; rx_frame_length =
-                           x.rx_frame_length; last_seqnum = x.last_seqnum;
-                           rx_block_counter = x.rx_block_counter;
-                           actual_rxdl = x.actual_rxdl; pending_fc =
-                           x.pending_fc; pending_fc_status =
-                           x.pending_fc_status; timer_rx_cf = x.timer_rx_cf;
-                           rx_queue = x.rx_queue; tx_state = x.tx_state;
-                           tx_queue = x.tx_queue; active = x.active;
-                           tx_standby = x.tx_standby; last_fc = x.last_fc;
-                           remote_bs = x.remote_bs; tx_block_counter =
-                           x.tx_block_counter; tx_seqnum = x.tx_seqnum;
-                           wft_counter = x.wft_counter; tx_frame_length =
-                           x.tx_frame_length; timer_rx_fc = x.timer_rx_fc;
-                           timer_tx_stmin = (t x); lim_times = x.lim_times;
-                           lim_bits = x.lim_bits; lim_total = x.lim_total;
-                           next_req_id = x.next_req_id }))
-                           (timer_start s1.now)
-                           (set (fun l -> l.tx_block_counter) (fun f ->
-                             let z = fun r -> f r.tx_block_counter in
-                             (fun x -> { now = x.now; rx_state = x.rx_state;
-                             rx_buffer = x.rx_buffer; rx_frame_length =
-                             x.rx_frame_length; last_seqnum = x.last_seqnum;
-                             rx_block_counter = x.rx_block_counter;
-                             actual_rxdl = x.actual_rxdl; pending_fc =
-                             x.pending_fc; pending_fc_status =
-                             x.pending_fc_status; timer_rx_cf =
-                             x.timer_rx_cf; rx_queue = x.rx_queue; tx_state =
-                             x.tx_state; tx_queue = x.tx_queue; active =
-                             x.active; tx_standby = x.tx_standby; last_fc =
-                             x.last_fc; remote_bs = x.remote_bs;
-                             tx_block_counter = (z x); tx_seqnum =
-                             x.tx_seqnum; wft_counter = x.wft_counter;
-                             tx_frame_length = x.tx_frame_length;
-                             timer_rx_fc = x.timer_rx_fc; timer_tx_stmin =
-                             x.timer_tx_stmin; lim_times = x.lim_times;
-                             lim_bits = x.lim_bits; lim_total = x.lim_total;
-                             next_req_id = x.next_req_id })) (fun _ -> Z0) s1)
-                       | _ -> s1
-                     in
-                     ((set (fun l -> l.tx_state) (fun f ->
-                        let t = fun r -> f r.tx_state in
-                        (fun x -> { now = x.now; rx_state = x.rx_state;
-                        rx_buffer = x.rx_buffer; rx_frame_length =
-                        x.rx_frame_length; last_seqnum = x.last_seqnum;
-                        rx_block_counter = x.rx_block_counter; actual_rxdl =
-                        x.actual_rxdl; pending_fc = x.pending_fc;
-                        pending_fc_status = x.pending_fc_status;
-                        timer_rx_cf = x.timer_rx_cf; rx_queue = x.rx_queue;
-                        tx_state = (t x); tx_queue = x.tx_queue; active =
-                        x.active; tx_standby = x.tx_standby; last_fc =
-                        x.last_fc; remote_bs = x.remote_bs;
-                        tx_block_counter = x.tx_block_counter; tx_seqnum =
-                        x.tx_seqnum; wft_counter = x.wft_counter;
-                        tx_frame_length = x.tx_frame_length; timer_rx_fc =
-                        x.timer_rx_fc; timer_tx_stmin = x.timer_tx_stmin;
-                        lim_times = x.lim_times; lim_bits = x.lim_bits;
-                        lim_total = x.lim_total; next_req_id =
-                        x.next_req_id })) (fun _ -> TxTransmitCF) s2), [])
-                else (s, [])
-         | TxTransmitCF ->
-           if Z.eqb fc.fc_status coq_FS_WAIT
-           then if Z.eqb p.p_wftmax Z0
-                then (s, ((EErr UnsupportedWaitFrame) :: []))
-                else if timer_timed_out s.now s.timer_rx_fc
-                     then (s, [])
-                     else if Z.leb p.p_wftmax s.wft_counter
-                          then let (s1, evs) = stop_sending false s in
-                               (s1, ((EErr MaximumWaitFrameReached) :: evs))
-                          else ((start_rx_fc_timer c
-                                  (set (fun l -> l.tx_state) (fun f ->
-                                    let t = fun r -> f r.tx_state in
-                                    (fun x -> { now = x.now; rx_state =
-                                    x.rx_state; rx_buffer = x.rx_buffer;
-                                    rx_frame_length = x.rx_frame_length;
-                                    last_seqnum = x.last_seqnum;
-                                    rx_block_counter = x.rx_block_counter;
-                                    actual_rxdl = x.actual_rxdl; pending_fc =
-                                    x.pending_fc; pending_fc_status =
-                                    x.pending_fc_status; timer_rx_cf =
-                                    x.timer_rx_cf; rx_queue = x.rx_queue;
-                                    tx_state = (t x); tx_queue = x.tx_queue;
-                                    active = x.active; tx_standby =
-                                    x.tx_standby; last_fc = x.last_fc;
-                                    remote_bs = x.remote_bs;
-                                    tx_block_counter = x.tx_block_counter;
-                                    tx_seqnum = x.tx_seqnum; wft_counter =
-                                    x.wft_counter; tx_frame_length =
-                                    x.tx_frame_length; timer_rx_fc =
-                                    x.timer_rx_fc; timer_tx_stmin =
-                                    x.timer_tx_stmin; lim_times =
-                                    x.lim_times; lim_bits = x.lim_bits;
-                                    lim_total = x.lim_total; next_req_id =
-                                    x.next_req_id })) (fun _ -> TxWaitFC)
-                                    (set (fun l -> l.wft_counter) (fun f ->
-                                      let z = fun r -> f r.wft_counter in
-                                      (fun x -> { now = x.now; rx_state =
-                                      x.rx_state; rx_buffer = x.rx_buffer;
-                                      rx_frame_length = x.rx_frame_length;
-                                      last_seqnum = x.last_seqnum;
-                                      rx_block_counter = x.rx_block_counter;
-                                      actual_rxdl = x.actual_rxdl;
-                                      pending_fc = x.pending_fc;
-                                      pending_fc_status =
-                                      x.pending_fc_status; timer_rx_cf =
-                                      x.timer_rx_cf; rx_queue = x.rx_queue;
-                                      tx_state = x.tx_state; tx_queue =
-                                      x.tx_queue; active = x.active;
-                                      tx_standby = x.tx_standby; last_fc =
-                                      x.last_fc; remote_bs = x.remote_bs;
-                                      tx_block_counter = x.tx_block_counter;
-                                      tx_seqnum = x.tx_seqnum; wft_counter =
-                                      (z x); tx_frame_length =
-                                      x.tx_frame_length; timer_rx_fc =
-                                      x.timer_rx_fc; timer_tx_stmin =
-                                      x.timer_tx_stmin; lim_times =
-                                      x.lim_times; lim_bits = x.lim_bits;
-                                      lim_total = x.lim_total; next_req_id =
-                                      x.next_req_id })) (fun _ ->
-                                      Z.add s.wft_counter (Zpos Coq_xH)) s))),
-                                 [])
-           else if (&&) (Z.eqb fc.fc_status coq_FS_CTS)
-                     (negb (timer_timed_out s.now s.timer_rx_fc))
-                then let st =
-                       match p.p_override_stmin_ns with
-                       | Some o -> o
-                       | None -> stmin_ns fc.fc_stmin
-                     in
-                     let s1 =
-                       set (fun l -> l.remote_bs) (fun f ->
-                         let o = fun r -> f r.remote_bs in
-                         (fun x -> { now = x.now; rx_state = x.rx_state;
-                         rx_buffer = x.rx_buffer; rx_frame_length =
-                         x.rx_frame_length; last_seqnum = x.last_seqnum;
-                         rx_block_counter = x.rx_block_counter; actual_rxdl =
-                         x.actual_rxdl; pending_fc = x.pending_fc;
-                         pending_fc_status = x.pending_fc_status;
-                         timer_rx_cf = x.timer_rx_cf; rx_queue = x.rx_queue;
-                         tx_state = x.tx_state; tx_queue = x.tx_queue;
-                         active = x.active; tx_standby = x.tx_standby;
-                         last_fc = x.last_fc; remote_bs = (o x);
-                         tx_block_counter = x.tx_block_counter; tx_seqnum =
-                         x.tx_seqnum; wft_counter = x.wft_counter;
-                         tx_frame_length = x.tx_frame_length; timer_rx_fc =
-                         x.timer_rx_fc; timer_tx_stmin = x.timer_tx_stmin;
-                         lim_times = x.lim_times; lim_bits = x.lim_bits;
-                         lim_total = x.lim_total; next_req_id =
-                         x.next_req_id })) (fun _ -> Some fc.fc_bs)
-                         (set (fun l -> l.timer_tx_stmin) (fun f ->
-                           let t = fun r -> f r.timer_tx_stmin in
-                           (fun x -> { now = x.now; rx_state = x.rx_state;
-                           rx_buffer = x.rx_buffer; rx_frame_length =
-                           x.rx_frame_length; last_seqnum = x.last_seqnum;
-                           rx_block_counter = x.rx_block_counter;
-                           actual_rxdl = x.actual_rxdl; pending_fc =
-                           x.pending_fc; pending_fc_status =
-                           x.pending_fc_status; timer_rx_cf = x.timer_rx_cf;
-                           rx_queue = x.rx_queue; tx_state = x.tx_state;
-                           tx_queue = x.tx_queue; active = x.active;
-                           tx_standby = x.tx_standby; last_fc = x.last_fc;
-                           remote_bs = x.remote_bs; tx_block_counter =
-                           x.tx_block_counter; tx_seqnum = x.tx_seqnum;
-                           wft_counter = x.wft_counter; tx_frame_length =
-                           x.tx_frame_length; timer_rx_fc = x.timer_rx_fc;
-                           timer_tx_stmin = (t x); lim_times = x.lim_times;
-                           lim_bits = x.lim_bits; lim_total = x.lim_total;
-                           next_req_id = x.next_req_id })) (fun t ->
-                           set (fun t0 -> t0.t_timeout) (fun f ->
-                             let z = fun r -> f r.t_timeout in
-                             (fun x -> { t_start = x.t_start; t_timeout =
-                             (z x) })) (fun _ -> st) t)
-                           (set (fun l -> l.timer_rx_fc) (fun f ->
-                             let t = fun r -> f r.timer_rx_fc in
-                             (fun x -> { now = x.now; rx_state = x.rx_state;
-                             rx_buffer = x.rx_buffer; rx_frame_length =
-                             x.rx_frame_length; last_seqnum = x.last_seqnum;
-                             rx_block_counter = x.rx_block_counter;
-                             actual_rxdl = x.actual_rxdl; pending_fc =
-                             x.pending_fc; pending_fc_status =
-                             x.pending_fc_status; timer_rx_cf =
-                             x.timer_rx_cf; rx_queue = x.rx_queue; tx_state =
-                             x.tx_state; tx_queue = x.tx_queue; active =
-                             x.active; tx_standby = x.tx_standby; last_fc =
-                             x.last_fc; remote_bs = x.remote_bs;
-                             tx_block_counter = x.tx_block_counter;
-                             tx_seqnum = x.tx_seqnum; wft_counter =
-                             x.wft_counter; tx_frame_length =
-                             x.tx_frame_length; timer_rx_fc = (t x);
-                             timer_tx_stmin = x.timer_tx_stmin; lim_times =
-                             x.lim_times; lim_bits = x.lim_bits; lim_total =
-                             x.lim_total; next_req_id = x.next_req_id }))
-                             timer_stop
-                             (set (fun l -> l.wft_counter) (fun f ->
-                               let z = fun r -> f r.wft_counter in
-                               (fun x -> { now = x.now; rx_state =
-                               x.rx_state; rx_buffer = x.rx_buffer;
-                               rx_frame_length = x.rx_frame_length;
-                               last_seqnum = x.last_seqnum;
-                               rx_block_counter = x.rx_block_counter;
-                               actual_rxdl = x.actual_rxdl; pending_fc =
-                               x.pending_fc; pending_fc_status =
-                               x.pending_fc_status; timer_rx_cf =
-                               x.timer_rx_cf; rx_queue = x.rx_queue;
-                               tx_state = x.tx_state; tx_queue = x.tx_queue;
-                               active = x.active; tx_standby = x.tx_standby;
-                               last_fc = x.last_fc; remote_bs = x.remote_bs;
-                               tx_block_counter = x.tx_block_counter;
-                               tx_seqnum = x.tx_seqnum; wft_counter = 
-                               (z x); tx_frame_length = x.tx_frame_length;
-                               timer_rx_fc = x.timer_rx_fc; timer_tx_stmin =
-                               x.timer_tx_stmin; lim_times = x.lim_times;
-                               lim_bits = x.lim_bits; lim_total =
-                               x.lim_total; next_req_id = x.next_req_id }))
-                               (fun _ -> Z0) s)))
-                     in
-                     let s2 =
-                       match s1.tx_state with
-                       | TxWaitFC ->
-                         set (fun l -> l.timer_tx_stmin) (fun f ->
-                           let t = fun r -> f r.timer_tx_stmin in
-                           (fun x -> { now = x.now; rx_state = x.rx_state;
-                           rx_buffer = x.rx_buffer; rx_frame_length =
-                           x.rx_frame_length; last_seqnum = x.last_seqnum;
-                           rx_block_counter = x.rx_block_counter;
-                           actual_rxdl = x.actual_rxdl; pending_fc =
-                           x.pending_fc; pending_fc_status =
-                           x.pending_fc_status; timer_rx_cf = x.timer_rx_cf;
-                           rx_queue = x.rx_queue; tx_state = x.tx_state;
-                           tx_queue = x.tx_queue; active = x.active;
-                           tx_standby = x.tx_standby; last_fc = x.last_fc;
-                           remote_bs = x.remote_bs; tx_block_counter =
-                           x.tx_block_counter; tx_seqnum = x.tx_seqnum;
-                           wft_counter = x.wft_counter; tx_frame_length =
-                           x.tx_frame_length; timer_rx_fc = x.timer_rx_fc;
-                           timer_tx_stmin = (t x); lim_times = x.lim_times;
-                           lim_bits = x.lim_bits; lim_total = x.lim_total;
-                           next_req_id = x.next_req_id }))
-                           (timer_start s1.now)
-                           (set (fun l -> l.tx_block_counter) (fun f ->
-                             let z = fun r -> f r.tx_block_counter in
-                             (fun x -> { now = x.now; rx_state = x.rx_state;
-                             rx_buffer = x.rx_buffer; rx_frame_length =
-                             x.rx_frame_length; last_seqnum = x.last_seqnum;
-                             rx_block_counter = x.rx_block_counter;
-                             actual_rxdl = x.actual_rxdl; pending_fc =
-                             x.pending_fc; pending_fc_status =
-                             x.pending_fc_status; timer_rx_cf =
-                             x.timer_rx_cf; rx_queue = x.rx_queue; tx_state =
-                             x.tx_state; tx_queue = x.tx_queue; active =
-                             x.active; tx_standby = x.tx_standby; last_fc =
-                             x.last_fc; remote_bs = x.remote_bs;
-                             tx_block_counter = (z x); tx_seqnum =
-                             x.tx_seqnum; wft_counter = x.wft_counter;
-                             tx_frame_length = x.tx_frame_length;
-                             timer_rx_fc = x.timer_rx_fc; timer_tx_stmin =
-                             x.timer_tx_stmin; lim_times = x.lim_times;
-                             lim_bits = x.lim_bits; lim_total = x.lim_total;
-                             next_req_id = x.next_req_id })) (fun _ -> Z0) s1)
-                       | _ -> s1
-                     in
-                     ((set (fun l -> l.tx_state) (fun f ->
-                        let t = fun r -> f r.tx_state in
-                        (fun x -> { now = x.now; rx_state = x.rx_state;
-                        rx_buffer = x.rx_buffer; rx_frame_length =
-                        x.rx_frame_length; last_seqnum = x.last_seqnum;
-                        rx_block_counter = x.rx_block_counter; actual_rxdl =
-                        x.actual_rxdl; pending_fc = x.pending_fc;
-                        pending_fc_status = x.pending_fc_status;
-                        timer_rx_cf = x.timer_rx_cf; rx_queue = x.rx_queue;
-                        tx_state = (t x); tx_queue = x.tx_queue; active =
-                        x.active; tx_standby = x.tx_standby; last_fc =
-                        x.last_fc; remote_bs = x.remote_bs;
-                        tx_block_counter = x.tx_block_counter; tx_seqnum =
-                        x.tx_seqnum; wft_counter = x.wft_counter;
-                        tx_frame_length = x.tx_frame_length; timer_rx_fc =
-                        x.timer_rx_fc; timer_tx_stmin = x.timer_tx_stmin;
-                        lim_times = x.lim_times; lim_bits = x.lim_bits;
-                        lim_total = x.lim_total; next_req_id =
-                        x.next_req_id })) (fun _ -> TxTransmitCF) s2), [])
-                else (s, [])
-         | _ -> (s, ((EErr UnexpectedFlowControl) :: []))
-       in
-       ((Some r), r)
+       (true, (s1, (app evs ((EErr OverflowErr) :: []))))
+  else (false,
+         (match s.tx_state with
+          | TxWaitFC -> handle_fc_active c s fc
+          | TxTransmitCF -> handle_fc_active c s fc
+          | _ -> (s, ((EErr UnexpectedFlowControl) :: []))))
 
 (** val tx_after_fc : cfg -> layer -> (tx_report, layer * event list) sum **)
 
@@ -2708,49 +2459,48 @@ let tx_after_fc c s =
   let after_fc =
     match fc with
     | Some f -> handle_fc c s0 f
-    | None -> ((Some (s0, [])), (s0, []))
+    | None -> (false, (s0, []))
   in
-  let (o, p) = after_fc in
-  (match o with
-   | Some _ ->
-     let (s1, evs1) = p in
-     if timer_timed_out s1.now s1.timer_rx_fc
-     then let (s', e) = stop_sending false s1 in
-          let evs2 = (EErr FlowControlTimeout) :: e in
-          (match s'.tx_state with
-           | TxIdle -> Coq_inr (s', (app evs1 evs2))
-           | _ ->
-             (match s'.active with
-              | Some r ->
-                if (&&) (r_is_depleted r)
-                     (match s'.tx_standby with
-                      | Some _ -> false
-                      | None -> true)
-                then let (s3, evs3) = stop_sending true s' in
-                     Coq_inr (s3, (app evs1 (app evs2 evs3)))
-                else Coq_inr (s', (app evs1 evs2))
-              | None ->
-                Coq_inl
-                  (mk_crash s' (app evs1 evs2) (Zpos (Coq_xI (Coq_xO
-                    Coq_xH))))))
-     else let evs2 = [] in
-          (match s1.tx_state with
-           | TxIdle -> Coq_inr (s1, (app evs1 evs2))
-           | _ ->
-             (match s1.active with
-              | Some r ->
-                if (&&) (r_is_depleted r)
-                     (match s1.tx_standby with
-                      | Some _ -> false
-                      | None -> true)
-                then let (s3, evs3) = stop_sending true s1 in
-                     Coq_inr (s3, (app evs1 (app evs2 evs3)))
-                else Coq_inr (s1, (app evs1 evs2))
-              | None ->
-                Coq_inl
-                  (mk_crash s1 (app evs1 evs2) (Zpos (Coq_xI (Coq_xO
-                    Coq_xH))))))
-   | None -> let (s1, evs) = p in Coq_inl (mk_tr s1 evs None false))
+  let (b, p) = after_fc in
+  if b
+  then let (s1, evs) = p in Coq_inl (mk_tr s1 evs None false)
+  else let (s1, evs1) = p in
+       if timer_timed_out s1.now s1.timer_rx_fc
+       then let (s', e) = stop_sending false s1 in
+            let evs2 = (EErr FlowControlTimeout) :: e in
+            (match s'.tx_state with
+             | TxIdle -> Coq_inr (s', (app evs1 evs2))
+             | _ ->
+               (match s'.active with
+                | Some r ->
+                  if (&&) (r_is_depleted r)
+                       (match s'.tx_standby with
+                        | Some _ -> false
+                        | None -> true)
+                  then let (s3, evs3) = stop_sending true s' in
+                       Coq_inr (s3, (app evs1 (app evs2 evs3)))
+                  else Coq_inr (s', (app evs1 evs2))
+                | None ->
+                  Coq_inl
+                    (mk_crash s' (app evs1 evs2) (Zpos (Coq_xI (Coq_xO
+                      Coq_xH))))))
+       else let evs2 = [] in
+            (match s1.tx_state with
+             | TxIdle -> Coq_inr (s1, (app evs1 evs2))
+             | _ ->
+               (match s1.active with
+                | Some r ->
+                  if (&&) (r_is_depleted r)
+                       (match s1.tx_standby with
+                        | Some _ -> false
+                        | None -> true)
+                  then let (s3, evs3) = stop_sending true s1 in
+                       Coq_inr (s3, (app evs1 (app evs2 evs3)))
+                  else Coq_inr (s1, (app evs1 evs2))
+                | None ->
+                  Coq_inl
+                    (mk_crash s1 (app evs1 evs2) (Zpos (Coq_xI (Coq_xO
+                      Coq_xH))))))
 
 (** val tx_finish :
     params -> layer -> event list -> frame option -> bool -> tx_report **)
